@@ -164,6 +164,95 @@ Qed.
 Theorem combine_nil_l child : NoDup (map fst child) -> combine [] child = child.
 Proof. intros ND. unfold combine. rewrite combine_go_nil; auto. Qed.
 
+(* ---- idempotence: including a file whose tree equals the document changes nothing ---- *)
+Fixpoint twf (t : tree) : Prop :=
+  match t with
+  | TLeaf _ => True
+  | TMap m => NoDup (map fst m) /\
+              (fix go (m : list (str * tree)) : Prop :=
+                 match m with [] => True | (_, v) :: r => twf v /\ go r end) m
+  end.
+Fixpoint twf_items (m : list (str * tree)) : Prop :=
+  match m with [] => True | (_, v) :: r => twf v /\ twf_items r end.
+Lemma twf_map m : twf (TMap m) <-> NoDup (map fst m) /\ twf_items m.
+Proof.
+  cbn [twf]. split; intros [H1 H2]; split; auto; clear H1;
+    induction m as [|[k v] m IH]; cbn in *; auto; destruct H2; split; auto.
+Qed.
+Lemma twf_items_in m k v : twf_items m -> In (k, v) m -> twf v.
+Proof.
+  induction m as [|[k' v'] m IH]; cbn [twf_items In]; [intros _ []|]. intros [H1 H2] Hin.
+  destruct Hin as [E|Hin]; [inversion E; subst; exact H1 | apply IH; assumption].
+Qed.
+
+Fixpoint tsize (t : tree) : nat :=
+  match t with
+  | TLeaf _ => 1
+  | TMap m => S ((fix go (m : list (str * tree)) : nat :=
+                    match m with [] => 0 | (_, v) :: r => tsize v + go r end) m)
+  end.
+Fixpoint tsize_items (m : list (str * tree)) : nat :=
+  match m with [] => 0 | (_, v) :: r => tsize v + tsize_items r end.
+Lemma tsize_map m : tsize (TMap m) = S (tsize_items m).
+Proof. reflexivity. Qed.
+Lemma tsize_items_in m k v : In (k, v) m -> (tsize v <= tsize_items m)%nat.
+Proof.
+  induction m as [|[k' v'] m IH]; cbn [In tsize_items]; intros Hin; [contradiction|].
+  destruct Hin as [E|Hin]; [inversion E; subst; apply Nat.le_add_r|].
+  specialize (IH Hin). apply (Nat.le_trans _ _ _ IH). rewrite Nat.add_comm. apply Nat.le_add_r.
+Qed.
+
+Lemma tget_in_nodup (m : list (str * tree)) k v : NoDup (map fst m) -> In (k, v) m -> tget k m = Some v.
+Proof.
+  unfold tget. induction m as [|[k' v'] m IH]; cbn [map fst In assoc]; intros ND Hin; [contradiction|].
+  inversion ND as [|? ? Hnin ND']; subst.
+  destruct Hin as [E|Hin].
+  - inversion E; subst. rewrite str_eqb_refl. reflexivity.
+  - destruct (str_eqb k k') eqn:E.
+    + apply str_eqb_eq in E. subst. exfalso. apply Hnin. change k' with (fst (k', v)). apply in_map. exact Hin.
+    + apply IH; assumption.
+Qed.
+
+Lemma tset_same k v (m : list (str * tree)) : tget k m = Some v -> tset k v m = m.
+Proof.
+  unfold tget, tset. induction m as [|[k' v'] m IH]; cbn [assoc assoc_set]; intros H; [discriminate|].
+  destruct (str_eqb k k') eqn:E.
+  - inversion H; subst. reflexivity.
+  - rewrite IH; auto.
+Qed.
+
+Lemma combine_go_same bm : forall cm acc,
+  (forall k v, In (k, v) cm -> tget k acc = Some v /\ merge_val (tget k bm) v = v) ->
+  combine_go bm acc cm = acc.
+Proof.
+  induction cm as [|[k v] cm IH]; intros acc H; cbn [combine_go]; [reflexivity|].
+  destruct (H k v (or_introl eq_refl)) as [Hg Hm]. rewrite Hm. rewrite tset_same by exact Hg.
+  apply IH. intros k' v' Hin. apply H. right. exact Hin.
+Qed.
+
+Lemma merge_idem_n : forall n v, (tsize v <= n)%nat -> twf v -> merge_val (Some v) v = v.
+Proof.
+  induction n as [|n IH]; intros v Hs Hw.
+  - destruct v; [cbn in Hs; inversion Hs | rewrite tsize_map in Hs; inversion Hs].
+  - destruct v as [x|m]; [reflexivity|].
+    rewrite merge_val_map. f_equal. unfold combine.
+    apply twf_map in Hw. destruct Hw as [ND Hit]. rewrite tsize_map in Hs.
+    apply combine_go_same. intros k v Hin.
+    assert (Hg : tget k m = Some v) by (apply tget_in_nodup; assumption).
+    split; [exact Hg|]. rewrite Hg. apply IH.
+    + pose proof (tsize_items_in m k v Hin) as Hle. apply le_S_n in Hs. apply (Nat.le_trans _ _ _ Hle Hs).
+    + eapply twf_items_in; eauto.
+Qed.
+
+Theorem merge_idem v : twf v -> merge_val (Some v) v = v.
+Proof. apply (merge_idem_n (tsize v)). apply Nat.le_refl. Qed.
+
+Theorem combine_idem m : twf (TMap m) -> combine m m = m.
+Proof.
+  intros Hw. pose proof (merge_idem (TMap m) Hw) as H. rewrite merge_val_map in H. inversion H as [H1].
+  rewrite H1. exact H1.
+Qed.
+
 (* ---- includes: one include field in a scope, at the root and in a nested sub-configuration ---- *)
 Section IncludeFacts.
   Variable load_file : N -> pyval -> res (list (str * tree)).
@@ -328,3 +417,12 @@ Example chain_example :
   process lf (ISchema [(sa "inc1", 1%N); (sa "inc2", 2%N)] []) [(sa "inc1", TLeaf (PStr (sa "one"))); (sa "v", TLeaf (PInt 0))]
   = Ok [(sa "inc1", TLeaf (PStr (sa "one"))); (sa "v", TLeaf (PInt 2)); (sa "inc2", TLeaf (PStr (sa "two"))); (sa "w", TLeaf (PInt 1))].
 Proof. vm_compute. reflexivity. Qed.
+
+(* non-vacuity of the idempotence theorems: a two-level document is well formed *)
+Example twf_example :
+  twf (TMap [(sa "a", TLeaf (PInt 1)); (sa "m", TMap [(sa "x", TLeaf (PInt 1)); (sa "y", TLeaf (PInt 2))])]).
+Proof.
+  apply twf_map. split.
+  - repeat constructor; cbn; intuition discriminate.
+  - cbn. repeat split; repeat constructor; cbn; intuition discriminate.
+Qed.
